@@ -59,7 +59,7 @@ def polygon(rng, cx=None, cy=None, ccw=None):
     """valid polygon: a rectangular shell with 0..2 disjoint rectangular holes strictly inside, wound opposite"""
     cx = rng.randint(-3, 6) if cx is None else cx
     cy = rng.randint(-3, 6) if cy is None else cy
-    ccw = (rng.random() < 0.7) if ccw is None else ccw
+    ccw = (rng.random() < 0.5) if ccw is None else ccw
     if rng.random() < 0.45:
         return [simple_ring(rng, cx, cy, 3, ccw)]
     w, h = rng.randint(3, 5), rng.randint(3, 5)
